@@ -13,7 +13,10 @@ ID = "C05"
 EXTRACT = "ExC05"
 TECHNIQUE = (
     "Coq theorems about a sequential reference model of the 25-verb session (decorator interpreter + handler bodies), "
-    "closed obligation that the decorator table regenerated from server.py equals the reference table, and a "
+    "closed obligation that the decorator table regenerated from server.py equals the reference table, the 25 handler BODIES "
+    "translated from server.py into a statement language (gen_handlers.py -> Gen/Handlers.v; closed obligation "
+    "C05_handler_programs_are_reference) with a Coq interpreter whose result is proved equal to the model's hand-written bodies "
+    "(C05_model_is_program_denotation), and a "
     "conformance correspondence of the extracted model against the real server on an in-memory network (exact quiescence)"
 )
 LEVEL_TEXT = (
@@ -24,7 +27,14 @@ LEVEL_TEXT = (
     "other than REST (C05_rest_scopes_one_command, C05_transfer_sees_offset). The defects found earlier (REST with non-decimal digits, "
     "EPSV <arg> ending the session after 522, REST offset surviving a transfer) were repaired in /repo (known_findings.json 'fixed'); "
     "their witnesses are now positive Examples and corpus cases. The conformance of the CODE to the model is a relational statement "
-    "about the code: it is carried by the regenerated decorator table and dispatcher facts (re-checked by vm_compute on every run) "
+    "about the code: it is carried by the regenerated decorator table and dispatcher facts (re-checked by vm_compute on every run), "
+    "by the handler bodies regenerated as programs (C05_handler_programs_are_reference: today's 25 bodies translate, with no "
+    "unclassified statement, to the reference programs; C05_model_is_program_denotation: for every handler, user table, argument, "
+    "data action, appe flag, delegation callback and world the interpreter applied to the translated program yields exactly the "
+    "model's body - hypotheses only for rnto/pass_ (the attribute their own decorator requires is present) and pwd (no double quote "
+    "in the directory, where the MODEL is wrong: C05_pwd_model_ignores_quote_doubling); C05_handler_is_program_denotation lifts it "
+    "through the decorator stacks to the whole handler for every world; PASV/EPSV listener start, socket choice, "
+    "transfer workers, user manager, throttles are named abstraction nodes of that language) "
     "and by bounded-exhaustive + random histories run against the real server (validation, not proof)."
 )
 LEVEL_NOTE = (
@@ -287,6 +297,8 @@ def correspondence(ctx, budget=None):
         [("REST", "3", None), ("STOR", "new", b"abc"), (ftpsim.DATACONN, "", None), ("MLSD", "", None)],
         [("CWD", "d", None), ("USER", "nopw", None), ("PWD", "", None), ("USER", "u", None), ("PWD", "", None), ("PASS", "pw", None), ("PWD", "", None)],
         [("STOR", "d", b"x"), ("PWD", "", None)],
+        # the other RFC 959 type / protection letters and empty arguments (502 each): TYPE/PROT accept exactly I, A / P
+        [("TYPE", "E", None), ("TYPE", "L", None), ("TYPE", "i", None), ("TYPE", "", None), ("PROT", "S", None), ("PROT", "", None), ("PROT", "p", None)],
         [("RETR", "g", None), ("PWD", "", None), (ftpsim.DATACONN, "", None), (ftpsim.DATACONN, "", None), ("RETR", "g", None), ("RETR", "g", None)],
     ]
     for t in targeted:
